@@ -827,10 +827,9 @@ package yang
 //@   loop 4
 //@     modifies deviatedNode.Config, deviatedNode.Default, deviatedNode.Mandatory, deviatedNode.Units, deviatedNode.Type
 //@     modifies deviatedNode.ListAttr.MinElements, deviatedNode.ListAttr.MaxElements
-//@     invariant arr(deviatedNode.Default) == 0 || arr(deviatedNode.Default) == loopentry(arr(deviatedNode.Default)) || loopfresh(deviatedNode.Default)
 //@     invariant arr(errs) == 0 || arr(errs) == atentry(arr(errs)) || loopfresh(errs)
 //@     invariant deviatedNode.Parent == nil || arr(deviatedNode.Parent.Errors) == loopentry(arr(deviatedNode.Parent.Errors)) || loopfresh(deviatedNode.Parent.Errors)
-//@     modifies elems(deviatedNode.Default), contents(deviatedNode.Parent.Dir), deviatedNode.Parent.Errors, elems(deviatedNode.Parent.Errors), cell(errs), elems(errs)
+//@     modifies contents(deviatedNode.Parent.Dir), deviatedNode.Parent.Errors, elems(deviatedNode.Parent.Errors), cell(errs), elems(errs)
 
 // ---------------------------------------------------------------------------
 // C09: type names bind lexically.
